@@ -13,6 +13,9 @@ pub enum Case {
     Named { name: String },
     /// week mask (bit i = weekday i closed) with a settlement calendar of another mask; all holiday subsets of one week
     Mask { mask: u8, smask_idx: u8 },
+    /// a long run of `r` consecutive closures starting `start` days after 2024-01-10 (Sat-Sun mask on top), with the
+    /// first `b` business days after the run closed for settlement
+    Run { r: i64, start: i64, b: i64 },
 }
 
 pub const SMASKS: [Option<u8>; 5] = [None, Some(0b1100000), Some(0b0110000), Some(0b1000000), Some(0b0111111)];
@@ -42,9 +45,17 @@ pub fn word_days(w: &str, z0: i64) -> (Vec<i64>, Vec<i64>) {
 /// UnionCal realisation: N days split over two members, B days split over one or two settlement calendars
 pub fn word_union(w: &str, z0: i64, variant: usize) -> UnionCal {
     let (n, b) = word_days(w, z0);
-    let h1: Vec<_> = n.iter().step_by(2).map(|z| to_ndt(*z)).collect();
-    let h2: Vec<_> = n.iter().skip(1).step_by(2).map(|z| to_ndt(*z)).collect();
-    let cals = vec![Cal::new(h1, vec![]), Cal::new(h2, vec![])];
+    let cals = if variant % 8 >= 2 {
+        // three members, closures dealt round-robin (consecutive closed days belong to different members), the
+        // members listed in each of the six possible orders
+        let part = |k: usize| -> Vec<_> { n.iter().skip(k).step_by(3).map(|z| to_ndt(*z)).collect() };
+        let perm = crate::common::permutations(3)[variant % 8 - 2].clone();
+        perm.iter().map(|k| Cal::new(part(*k), vec![])).collect()
+    } else {
+        let h1: Vec<_> = n.iter().step_by(2).map(|z| to_ndt(*z)).collect();
+        let h2: Vec<_> = n.iter().skip(1).step_by(2).map(|z| to_ndt(*z)).collect();
+        vec![Cal::new(h1, vec![]), Cal::new(h2, vec![])]
+    };
     let settle = if b.is_empty() {
         if variant % 2 == 0 {
             None
@@ -168,6 +179,30 @@ pub fn check(case: &Case, idx: u64, acc: &mut Acc) {
             check_rolls(&cal, &bm, DAY_MIN, day_max(), "NamedCal", case, idx, acc);
             acc.sample(|| serde_json::to_value(case).unwrap());
         }
+        Case::Run { r, start, b } => {
+            let z0 = days_from_civil(2024, 1, 10) + start;
+            let hols: Vec<_> = (0..*r).map(|i| to_ndt(z0 + i)).collect();
+            let member = Cal::new(hols, vec![5, 6]);
+            // settlement closures: the first b weekdays after the run
+            let mut sh = vec![];
+            let mut z = z0 + r;
+            while (sh.len() as i64) < *b {
+                if weekday(z) < 5 {
+                    sh.push(z);
+                }
+                z += 1;
+            }
+            let u = UnionCal::new(vec![member], Some(vec![Cal::new(sh.iter().map(|z| to_ndt(*z)).collect(), vec![5, 6])]));
+            let (lo, hi) = (z0 - 60, z0 + r + 60);
+            let bm = Bitmap::from_fn(lo, hi, |z| {
+                let wk = weekday(z) < 5;
+                (wk && !(z >= z0 && z < z0 + r), wk && !sh.contains(&z))
+            });
+            check_rolls(&u, &bm, z0 - 3, z0 + r + 3, "UnionCal/long-run", case, idx, acc);
+            if idx % 37 == 0 {
+                acc.sample(|| serde_json::to_value(case).unwrap());
+            }
+        }
         Case::Mask { mask, smask_idx } => {
             let z0 = days_from_civil(2024, 2, 26); // a Monday; the week crosses into March
             let wm: Vec<u8> = (0..7u8).filter(|i| mask & (1 << i) != 0).collect();
@@ -229,6 +264,14 @@ pub fn cases(tier: Tier) -> Vec<Case> {
             out.push(Case::Mask { mask, smask_idx: s });
         }
     }
+    // long closures (longer than the word window, up to more than two months), every alignment against the month ends
+    for r in [12i64, 20, 31, 35, 62, 70] {
+        for start in 0..45 {
+            for b in [0i64, 2] {
+                out.push(Case::Run { r, start, b });
+            }
+        }
+    }
     out
 }
 
@@ -249,11 +292,12 @@ pub fn run(ctx: &Ctx, replay_file: Option<String>) -> ! {
     }
     let meta = Meta::exploration(
         "(1) every calendar that roll can distinguish on a W-day window = every word over {N non-business, B business \
-         but not settleable, S settleable}^W (all S outside), realised as UnionCal (members and settlement calendars \
+         but not settleable, S settleable}^W (all S outside), realised as UnionCal (two or three members and one or two settlement calendars \
          split the N / B days), CalType and, for B-free words, Cal; month boundary after every position 0..W on three \
          anchors (leap Feb->Mar, common Feb->Mar, Dec->Jan); every date of the window +-2, 5 modifiers, both \
          settlement flags. (2) all 14 built-in calendars and 5 named unions over EVERY date 1970-2200. (3) all 127 \
-         week masks x 5 settlement masks x every holiday subset of one week. Oracle: linear searches on a bitmap of \
+         week masks x 5 settlement masks x every holiday subset of one week. (4) long runs of 12..70 consecutive closures \
+         at every alignment against two month ends, with and without settlement closures right after the run. Oracle: linear searches on a bitmap of \
          the calendar's definition (the word / the week masks and holidays) - for the named calendars, of their own \
          is_bus_day / is_settlement: following = first eligible >= d, previous = last eligible \
          <= d, modified = opposite search when (year, month) differs, actual = d; laws: eligible dates do not move, \
